@@ -89,7 +89,16 @@ DeclProgs ==
   \cup {<<SDecl(CCHAR, <<Var(<<"*","s">>, l)>>), SExpr(E(Bin(<<"=">>, Bv, Index(S, N1))))>> : l \in {StrQ, StrN}}
   \cup {<<SDecl(CCHAR, <<Var(<<"*","s">>, l)>>), SExpr(E(Bin(<<"=">>, Bv, Index(S, N0))))>> : l \in {StrQ1}}
 
-QuickPrograms == IfProgs \cup LoopProgs \cup SwitchProgs \cup DeclProgs
+\* declared types with a width: the initial value is converted (a * 60 = 300), 64-bit arithmetic (values through g++ only)
+N60 == Lit("prim", <<"6","0">>, <<"6","0">>, 60, <<>>)
+Big  == Lit("prim", <<"1","0","0","0","0","0">>, <<"1","0","0","0","0","0">>, 100000, <<>>)
+DeclTypes == ArithTypes \ {T_CCHAR}
+TypedDeclProgs ==
+  {<<SDecl(ty, <<Var(<<"x">>, E(Bin(<<"*">>, A, N60)))>>), SExpr(E(Bin(<<"=">>, Bv, X)))>> : ty \in DeclTypes}
+  \cup {<<SDecl(ty, <<Var(<<"x">>, A), Var(<<"y">>, E(Bin(<<"+">>, X, N1)))>>), SExpr(E(Bin(<<"=">>, Bv, Y)))>> : ty \in DeclTypes}
+  \cup {<<SDecl(ty, <<Var(<<"x">>, Big)>>), SExpr(E(Bin(<<"=">>, Bv, Bin(<<">">>, Bin(<<"*">>, X, Big), N0))))>> : ty \in DeclTypes}
+  \cup {<<SDecl(ty, <<Var(<<"x">>, E(Cast(ty, Bin(<<"*">>, A, N60))))>>), SExpr(E(Bin(<<"=">>, Bv, X)))>> : ty \in DeclTypes \ {T_CINT, T_CLONG, T_CHAR}}
+QuickPrograms == IfProgs \cup LoopProgs \cup SwitchProgs \cup DeclProgs \cup TypedDeclProgs
 \* thorough: every if-program nested as the body of a loop, and loops inside both branches of an if
 ThoroughPrograms == QuickPrograms
   \cup {<<SWhile(Apos, p \o <<S1>>)>> : p \in IfProgs}
